@@ -66,8 +66,9 @@ def rules(ctx):
     C02.copy_ctor_counter(ctx, 'R06.5')
     from .C07 import builders_pure
     builders_pure(ctx, 'R06.4', E)
-    from .C07 import no_collapsing_dictcomp
+    from .C07 import no_collapsing_dictcomp, operand_discipline
     no_collapsing_dictcomp(ctx, 'R06.4')
+    operand_discipline(ctx, 'R06.4', 'R06.4')      # the gates are built with AND / OR / XOR ...: every operand given takes part
     C02.record_balance(ctx, 'R06.5', P.func('PCBO.add_constraint_eq_zero'), 'eq')
     C02.early_exits(ctx, 'R06.5', P.func('PCBO.add_constraint_eq_zero'))
     C02.lam_zero_rule(ctx, 'R06.5', P.func('PCBO.add_constraint_eq_zero'))
